@@ -108,6 +108,20 @@ def _all2():
     for L in lists:
         for R in lists:
             yield {"fam": "le", "L": L, "R": R, "two": True}
+    A = alts1()
+    l3 = [list(c) for n in (1, 2, 3) for c in itertools.combinations(A[::3], n)]
+    for L in l3:
+        for R in l3:
+            yield {"fam": "le", "L": L, "R": R, "three": True}
+    # merges of compound contracts whose guarantees are two-variable alternatives
+    ga = [[interval("i", 0, 1) + interval("o", 0, 1)], [interval("i", 0, 2) + interval("o", 1, 2), [[{"i": 1, "o": -1}, 0]]],
+          [[[{"i": 1, "o": 1}, 2], [{"i": -1}, 0], [{"o": -1}, 0]]], [interval("o", 2, 1)], [interval("o", 0, 3), interval("i", 1, 1) + interval("o", 1, 1)]]
+    da = [[interval("i", 0, 1), interval("i", 2, 3)], [interval("i", None, 1), interval("i", 2, None)], [interval("i", 1, 3)]]
+    for a1 in da:
+        for a2 in da:
+            for g1 in ga:
+                for g2 in ga:
+                    yield {"fam": "merge", "a1": a1, "g1": g1, "a2": a2, "g2": g2, "two": True}
 
 
 def cases(tier, seed):
